@@ -170,6 +170,19 @@ class NativeModel:
     symbolic values may be stored in their attributes."""
 
 
+class GenericIter(list):
+    """A concrete list whose elements stand for *arbitrary* members of a collection (independent-iteration rule):
+    before each element the interpreter havocs every local the loop body assigns, i.e. the iteration is verified
+    after arbitrarily many other iterations; loop-carried state that reaches the postcondition fails the proof."""
+
+
+class Poison:
+    """value of a non-scalar local carried into a generic iteration: reading it is a loop-carried dependency."""
+
+    def __init__(self, name):
+        self.name = name
+
+
 class SymStr(NativeModel):
     """A python str built from symbolic parts (messages, derived names): opaque, equal only to itself."""
 
